@@ -15,7 +15,6 @@
    The interpreters are positional: step k works on field k of the value; that
    the step names field k of the declaration is checked by [ops_realise].
    No proofs here. *)
-From Coq Require Import String.
 From Fiano Require Import Base.Bytes Model.Manifest.
 Open Scope Z_scope.
 
@@ -24,14 +23,17 @@ Inductive rprog :=
 | RNil
 | RCons (st : rstep) (rest : rprog)
 with rstep :=
-| RFixed (n : Z) (w : nat) (f : string)        (* n, err := N, binary.Read(r, LE, &s.F) *)
-| RArray (n : Z) (len : nat) (f : string)      (* n, err := N, binary.Read(r, LE, s.F[:]) *)
-| RStructRaw (f : string) (layout : schema)    (* binary.Read(r, LE, &s.F); totalN += binary.Size(s.F) *)
-| RSub (f : string) (p : rprog)                (* n, err := s.F.ReadFrom(r) *)
-| RList (cw : nat) (f : string) (p : rprog)    (* count; make; for idx { s.F[idx].ReadFrom(r) } *)
-| RListInt (cw w : nat) (f : string)           (* same, items of a named basic type *)
-| RBytesPrefixed (cw : nat) (f : string)       (* size; make; binary.Read(r, LE, s.F) *)
-| RBytesCounted (cw : nat) (e : cexpr) (f : string).  (* size := CT(s.<expr>); make; binary.Read *)
+| RFixed (n : Z) (w : nat) (f : fname)        (* n, err := N, binary.Read(r, LE, &s.F) *)
+| RArray (n : Z) (len : nat) (f : fname)      (* n, err := N, binary.Read(r, LE, s.F[:]) *)
+| RStructRaw (f : fname) (layout : schema)    (* binary.Read(r, LE, &s.F); totalN += binary.Size(s.F) *)
+| RSub (f : fname) (p : rprog)                (* n, err := s.F.ReadFrom(r) *)
+| RList (cw : nat) (f : fname) (p : rprog)    (* count; make; for idx { s.F[idx].ReadFrom(r) } *)
+| RListInt (cw w : nat) (f : fname)           (* same, items of a named basic type *)
+| RListIntByValue (cw w : nat) (f : fname)    (* same, but the item's ReadFrom has a VALUE receiver:
+                                                  binary.Read gets a non-pointer and fails, so only
+                                                  the empty list can be read *)
+| RBytesPrefixed (cw : nat) (f : fname)       (* size; make; binary.Read(r, LE, s.F) *)
+| RBytesCounted (cw : nat) (e : cexpr) (f : fname).  (* size := CT(s.<expr>); make; binary.Read *)
 
 Scheme rprog_mind := Induction for rprog Sort Prop
   with rstep_mind := Induction for rstep Sort Prop.
@@ -42,13 +44,13 @@ Inductive wprog :=
 | WNil
 | WCons (st : wstep) (rest : wprog)
 with wstep :=
-| WFixed (n : Z) (w : nat) (f : string)
-| WArray (n : Z) (len : nat) (f : string)
-| WSub (f : string) (p : wprog)                (* n, err := s.F.WriteTo(w) *)
-| WList (cw : nat) (f : string) (p : wprog)
-| WListInt (cw w : nat) (f : string)
-| WBytesPrefixed (cw : nat) (f : string)
-| WBytesRaw (f : string).                      (* n, err := len(s.F), binary.Write(w, LE, s.F) *)
+| WFixed (n : Z) (w : nat) (f : fname)
+| WArray (n : Z) (len : nat) (f : fname)
+| WSub (f : fname) (p : wprog)                (* n, err := s.F.WriteTo(w) *)
+| WList (cw : nat) (f : fname) (p : wprog)
+| WListInt (cw w : nat) (f : fname)
+| WBytesPrefixed (cw : nat) (f : fname)
+| WBytesRaw (f : fname).                      (* n, err := len(s.F), binary.Write(w, LE, s.F) *)
 
 Scheme wprog_mind := Induction for wprog Sort Prop
   with wstep_mind := Induction for wstep Sort Prop.
@@ -57,7 +59,7 @@ Combined Scheme wprog_wstep_ind from wprog_mind, wstep_mind.
 (* ---- <F>TotalSize, in declaration order ---- *)
 Inductive zprog :=
 | ZNil
-| ZCons (f : string) (st : zstep) (rest : zprog)
+| ZCons (f : fname) (st : zstep) (rest : zprog)
 with zstep :=
 | ZConst (n : Z)                               (* return N *)
 | ZSub (p : zprog)                             (* return s.F.TotalSize() *)
@@ -74,8 +76,8 @@ Record sir := mkSir {
   ir_read : rprog;                              (* ReadFrom (for an element: header, then ReadDataFrom) *)
   ir_write : wprog;
   ir_sizes : zprog;
-  ir_total : list string;                       (* TotalSize: size += s.<F>TotalSize() for these, in order *)
-  ir_offsets : list (string * option string);   (* <F>Offset: None = return 0; Some g = s.gOffset() + s.gTotalSize() *)
+  ir_total : list fname;                       (* TotalSize: size += s.<F>TotalSize() for these, in order *)
+  ir_offsets : list (fname * option fname);   (* <F>Offset: None = return 0; Some g = s.gOffset() + s.gTotalSize() *)
   ir_rehash : rhspec                            (* Rehash(): the assignments *)
 }.
 
@@ -150,6 +152,11 @@ with run_rstep (st : rstep) (en : env) (b : bytes) {struct st} : option (value *
            | None => None
            end
          end) (Z.to_nat (le_dec h)) r)
+    | None => None
+    end
+  | RListIntByValue cw w _ =>
+    match take (Z.of_nat cw) b with
+    | Some (h, r) => if le_dec h =? 0 then Some (VNil, Z.of_nat cw, r) else None
     | None => None
     end
   | RBytesPrefixed cw _ =>
@@ -238,21 +245,21 @@ Fixpoint run_zfield (p : zprog) (v : value) (i : nat) : Z :=
 
 (* <F>Offset for the field at position i, following the chain of
    "s.gOffset() + s.gTotalSize()" through the names; fuel = number of fields *)
-Fixpoint zindex (p : zprog) (nm : string) : option nat :=
+Fixpoint zindex (p : zprog) (nm : fname) : option nat :=
   match p with
   | ZNil => None
   | ZCons f _ rest =>
-    if String.eqb f nm then Some O
+    if name_eqb f nm then Some O
     else match zindex rest nm with Some k => Some (S k) | None => None end
   end.
 
-Fixpoint lookup_off (offs : list (string * option string)) (nm : string) : option (option string) :=
+Fixpoint lookup_off (offs : list (fname * option fname)) (nm : fname) : option (option fname) :=
   match offs with
   | [] => None
-  | (f, o) :: rest => if String.eqb f nm then Some o else lookup_off rest nm
+  | (f, o) :: rest => if name_eqb f nm then Some o else lookup_off rest nm
   end.
 
-Fixpoint run_off (fuel : nat) (ir : sir) (v : value) (nm : string) : option Z :=
+Fixpoint run_off (fuel : nat) (ir : sir) (v : value) (nm : fname) : option Z :=
   match fuel with
   | O => None
   | S fuel' =>
@@ -307,30 +314,13 @@ Fixpoint rhspec_eqb (a b : rhspec) : bool :=
   | _, _ => false
   end.
 
-(* a layout binary.Read can fill directly: fixed-width integers and byte arrays *)
-Fixpoint plain_s (s : schema) : bool :=
-  match s with
-  | SNil => true
-  | SCons _ (FInt _) rest => plain_s rest
-  | SCons _ (FArr _) rest => plain_s rest
-  | _ => false
-  end.
-
-Fixpoint schema_eqb (a b : schema) {struct a} : bool :=
+(* a layout binary.Read can fill directly (fixed-width integers and byte arrays
+   only), and the same in the declaration and in the code *)
+Fixpoint plain_eqb (a b : schema) : bool :=
   match a, b with
   | SNil, SNil => true
-  | SCons n t r, SCons n' t' r' => String.eqb n n' && fty_eqb t t' && schema_eqb r r'
-  | _, _ => false
-  end
-with fty_eqb (a b : fty) {struct a} : bool :=
-  match a, b with
-  | FInt w, FInt w' => Nat.eqb w w'
-  | FArr n, FArr n' => Nat.eqb n n'
-  | FSub s rh, FSub s' rh' => schema_eqb s s' && rhspec_eqb rh rh'
-  | FList cw s rh, FList cw' s' rh' => Nat.eqb cw cw' && schema_eqb s s' && rhspec_eqb rh rh'
-  | FListInt cw w, FListInt cw' w' => Nat.eqb cw cw' && Nat.eqb w w'
-  | FBytesP cw, FBytesP cw' => Nat.eqb cw cw'
-  | FBytesC cw e, FBytesC cw' e' => Nat.eqb cw cw' && cexpr_eqb e e'
+  | SCons n (FInt w) r, SCons n' (FInt w') r' => name_eqb n n' && Nat.eqb w w' && plain_eqb r r'
+  | SCons n (FArr k) r, SCons n' (FArr k') r' => name_eqb n n' && Nat.eqb k k' && plain_eqb r r'
   | _, _ => false
   end.
 
@@ -340,16 +330,16 @@ Fixpoint realise_r (s : schema) (p : rprog) {struct s} : bool :=
   | SCons nm t rest, RCons st p' => realise_rf nm t st && realise_r rest p'
   | _, _ => false
   end
-with realise_rf (nm : string) (t : fty) (st : rstep) {struct t} : bool :=
+with realise_rf (nm : fname) (t : fty) (st : rstep) {struct t} : bool :=
   match t, st with
-  | FInt w, RFixed n w' f => String.eqb f nm && Nat.eqb w w' && (n =? Z.of_nat w)
-  | FArr len, RArray n len' f => String.eqb f nm && Nat.eqb len len' && (n =? Z.of_nat len)
-  | FSub s _, RStructRaw f layout => String.eqb f nm && schema_eqb s layout && plain_s s
-  | FSub s _, RSub f p => String.eqb f nm && realise_r s p
-  | FList cw s _, RList cw' f p => String.eqb f nm && Nat.eqb cw cw' && realise_r s p
-  | FListInt cw w, RListInt cw' w' f => String.eqb f nm && Nat.eqb cw cw' && Nat.eqb w w'
-  | FBytesP cw, RBytesPrefixed cw' f => String.eqb f nm && Nat.eqb cw cw'
-  | FBytesC cw e, RBytesCounted cw' e' f => String.eqb f nm && Nat.eqb cw cw' && cexpr_eqb e e'
+  | FInt w, RFixed n w' f => name_eqb f nm && Nat.eqb w w' && (n =? Z.of_nat w)
+  | FArr len, RArray n len' f => name_eqb f nm && Nat.eqb len len' && (n =? Z.of_nat len)
+  | FSub s _, RStructRaw f layout => name_eqb f nm && plain_eqb s layout
+  | FSub s _, RSub f p => name_eqb f nm && realise_r s p
+  | FList cw s _, RList cw' f p => name_eqb f nm && Nat.eqb cw cw' && realise_r s p
+  | FListInt cw w, RListInt cw' w' f => name_eqb f nm && Nat.eqb cw cw' && Nat.eqb w w'
+  | FBytesP cw, RBytesPrefixed cw' f => name_eqb f nm && Nat.eqb cw cw'
+  | FBytesC cw e, RBytesCounted cw' e' f => name_eqb f nm && Nat.eqb cw cw' && cexpr_eqb e e'
   | _, _ => false
   end.
 
@@ -359,15 +349,15 @@ Fixpoint realise_w (s : schema) (p : wprog) {struct s} : bool :=
   | SCons nm t rest, WCons st p' => realise_wf nm t st && realise_w rest p'
   | _, _ => false
   end
-with realise_wf (nm : string) (t : fty) (st : wstep) {struct t} : bool :=
+with realise_wf (nm : fname) (t : fty) (st : wstep) {struct t} : bool :=
   match t, st with
-  | FInt w, WFixed n w' f => String.eqb f nm && Nat.eqb w w' && (n =? Z.of_nat w)
-  | FArr len, WArray n len' f => String.eqb f nm && Nat.eqb len len' && (n =? Z.of_nat len)
-  | FSub s _, WSub f p => String.eqb f nm && realise_w s p
-  | FList cw s _, WList cw' f p => String.eqb f nm && Nat.eqb cw cw' && realise_w s p
-  | FListInt cw w, WListInt cw' w' f => String.eqb f nm && Nat.eqb cw cw' && Nat.eqb w w'
-  | FBytesP cw, WBytesPrefixed cw' f => String.eqb f nm && Nat.eqb cw cw'
-  | FBytesC _ _, WBytesRaw f => String.eqb f nm
+  | FInt w, WFixed n w' f => name_eqb f nm && Nat.eqb w w' && (n =? Z.of_nat w)
+  | FArr len, WArray n len' f => name_eqb f nm && Nat.eqb len len' && (n =? Z.of_nat len)
+  | FSub s _, WSub f p => name_eqb f nm && realise_w s p
+  | FList cw s _, WList cw' f p => name_eqb f nm && Nat.eqb cw cw' && realise_w s p
+  | FListInt cw w, WListInt cw' w' f => name_eqb f nm && Nat.eqb cw cw' && Nat.eqb w w'
+  | FBytesP cw, WBytesPrefixed cw' f => name_eqb f nm && Nat.eqb cw cw'
+  | FBytesC _ _, WBytesRaw f => name_eqb f nm
   | _, _ => false
   end.
 
@@ -377,7 +367,7 @@ Definition ocw_is (cw : option nat) (c : nat) : bool :=
 Fixpoint realise_z (s : schema) (p : zprog) {struct s} : bool :=
   match s, p with
   | SNil, ZNil => true
-  | SCons nm t rest, ZCons f st p' => String.eqb f nm && realise_zf t st && realise_z rest p'
+  | SCons nm t rest, ZCons f st p' => name_eqb f nm && realise_zf t st && realise_z rest p'
   | _, _ => false
   end
 with realise_zf (t : fty) (st : zstep) {struct t} : bool :=
@@ -392,35 +382,35 @@ with realise_zf (t : fty) (st : zstep) {struct t} : bool :=
   | _, _ => false
   end.
 
-Fixpoint names_s (s : schema) : list string :=
+Fixpoint names_s (s : schema) : list fname :=
   match s with SNil => [] | SCons n _ rest => n :: names_s rest end.
 
-Fixpoint strlist_eqb (a b : list string) : bool :=
+Fixpoint strlist_eqb (a b : list fname) : bool :=
   match a, b with
   | [], [] => true
-  | x :: a', y :: b' => String.eqb x y && strlist_eqb a' b'
+  | x :: a', y :: b' => name_eqb x y && strlist_eqb a' b'
   | _, _ => false
   end.
 
 (* offsets: first field returns 0, every other field chains to its predecessor *)
-Fixpoint offsets_ok (prev : option string) (names : list string)
-         (offs : list (string * option string)) : bool :=
+Fixpoint offsets_ok (prev : option fname) (names : list fname)
+         (offs : list (fname * option fname)) : bool :=
   match names, offs with
   | [], [] => true
   | n :: names', (f, o) :: offs' =>
-    String.eqb f n &&
+    name_eqb f n &&
     (match prev, o with
      | None, None => true
-     | Some g, Some g' => String.eqb g g'
+     | Some g, Some g' => name_eqb g g'
      | _, _ => false
      end) && offsets_ok (Some n) names' offs'
   | _, _ => false
   end.
 
-Fixpoint nodup_names (l : list string) : bool :=
+Fixpoint nodup_names (l : list fname) : bool :=
   match l with
   | [] => true
-  | x :: r => negb (existsb (String.eqb x) r) && nodup_names r
+  | x :: r => negb (existsb (name_eqb x) r) && nodup_names r
   end.
 
 Definition ops_realise (d : sdesc) (ir : sir) : bool :=
@@ -439,10 +429,12 @@ Record cir := mkCir {
   ci_index : list (bytes * nat);              (* fieldIndexByStructID: ID constant -> index *)
   ci_missing : list nat;                      (* indices initialised to true in missingFieldsByIndices *)
   ci_nfields : nat;                           (* length of that array *)
-  ci_cases : list (bytes * string * ekind);   (* the dispatch switch of ReadFrom, in order *)
-  ci_write : list (string * ekind);           (* WriteTo blocks *)
-  ci_total : list string;
-  ci_offsets : list (string * option string)
+  ci_cases : list (bytes * fname * ekind);   (* the dispatch switch of ReadFrom, in order *)
+  ci_write : list (fname * ekind);           (* WriteTo blocks *)
+  ci_sizes : zprog;
+  ci_total : list fname;
+  ci_offsets : list (fname * option fname);
+  ci_rehash : option crehash                  (* Rehash(): s.<hdr> = T(s.<hand-written fn>()) *)
 }.
 
 Definition ekind_of (m : mult) : ekind :=
@@ -458,20 +450,20 @@ Fixpoint index_ok (k : nat) (es : list celem) (ix : list (bytes * nat)) : bool :
   | _, _ => false
   end.
 
-Fixpoint cases_ok (es : list celem) (cs : list (bytes * string * ekind)) : bool :=
+Fixpoint cases_ok (es : list celem) (cs : list (bytes * fname * ekind)) : bool :=
   match es, cs with
   | [], [] => true
   | e :: es', (id, f, k) :: cs' =>
-    bytes_eqb (ce_id e) id && String.eqb (ce_name e) f && ekind_eqb (ekind_of (ce_mult e)) k &&
+    bytes_eqb (ce_id e) id && name_eqb (ce_name e) f && ekind_eqb (ekind_of (ce_mult e)) k &&
     cases_ok es' cs'
   | _, _ => false
   end.
 
-Fixpoint cwrite_ok (es : list celem) (ws : list (string * ekind)) : bool :=
+Fixpoint cwrite_ok (es : list celem) (ws : list (fname * ekind)) : bool :=
   match es, ws with
   | [], [] => true
   | e :: es', (f, k) :: ws' =>
-    String.eqb (ce_name e) f && ekind_eqb (ekind_of (ce_mult e)) k && cwrite_ok es' ws'
+    name_eqb (ce_name e) f && ekind_eqb (ekind_of (ce_mult e)) k && cwrite_ok es' ws'
   | _, _ => false
   end.
 
@@ -491,12 +483,90 @@ Fixpoint ids_distinct (es : list celem) : bool :=
   | e :: r => negb (existsb (fun e' => bytes_eqb (ce_id e) (ce_id e')) r) && ids_distinct r
   end.
 
+Fixpoint csizes_ok (es : list celem) (p : zprog) : bool :=
+  match es, p with
+  | [], ZNil => true
+  | e :: es', ZCons f st p' =>
+    name_eqb (ce_name e) f &&
+    (match ce_mult e, st with
+     | MMany, ZList None q => realise_z (sd_schema (ce_desc e)) q
+     | MOne, ZSub q => realise_z (sd_schema (ce_desc e)) q
+     | MOpt, ZSub q => realise_z (sd_schema (ce_desc e)) q
+     | _, _ => false
+     end) && csizes_ok es' p'
+  | _, _ => false
+  end.
+
+Definition crehash_eqb (a b : option crehash) : bool :=
+  match a, b with
+  | None, None => true
+  | Some x, Some y =>
+    Nat.eqb (cr_field x) (cr_field y) && Nat.eqb (cr_width x) (cr_width y) &&
+    Nat.eqb (cr_elem x) (cr_elem y) && Nat.eqb (cr_sub x) (cr_sub y)
+  | _, _ => false
+  end.
+
 Definition cops_realise (c : cdesc) (ir : cir) : bool :=
   index_ok O (cd_elems c) (ci_index ir) &&
   natlist_eqb (required_indices O (cd_elems c)) (ci_missing ir) &&
   Nat.eqb (ci_nfields ir) (length (cd_elems c)) &&
   cases_ok (cd_elems c) (ci_cases ir) &&
   cwrite_ok (cd_elems c) (ci_write ir) &&
+  csizes_ok (cd_elems c) (ci_sizes ir) &&
+  crehash_eqb (cd_rh c) (ci_rehash ir) &&
   strlist_eqb (map ce_name (cd_elems c)) (ci_total ir) &&
   offsets_ok None (map ce_name (cd_elems c)) (ci_offsets ir) &&
   ids_distinct (cd_elems c).
+
+(* side conditions on a container description used by the round-trip theorem: the
+   StructInfo layout starts with a non-empty ID array, every element starts with that
+   same plain StructInfo, the structure IDs are pairwise different *)
+Definition elem_shape_ok (hdr : schema) (e : celem) : bool :=
+  match sd_schema (ce_desc e) with
+  | SCons _ (FSub hs _) _ => plain_eqb hdr hs
+  | _ => false
+  end.
+
+Definition hdr_ok (hdr : schema) : bool :=
+  match hdr with SCons _ (FArr (S _)) _ => true | _ => false end.
+
+Definition cdesc_ok (c : cdesc) : bool :=
+  hdr_ok (cd_hdr c) && forallb (elem_shape_ok (cd_hdr c)) (cd_elems c) && ids_distinct (cd_elems c).
+
+(* side conditions for the Rehash of a container: every element's own rehash is well
+   placed (sdesc_ok), never touches the structure ID (path [0;0]), the StructInfo has no
+   rehash of its own; the container's own assignment (rehashedBPMH) targets an integer
+   field (not the StructInfo) of the first, required element, which no rehash of that
+   element overwrites *)
+Definition celem_ok (e : celem) : bool :=
+  sdesc_ok (ce_desc e) &&
+  forallb (fun a => pdisj [O; O] (rh_path a)) (sd_rh (ce_desc e)) &&
+  match sd_schema (ce_desc e) with
+  | SCons _ (FSub hs []) _ => plain hs
+  | _ => false
+  end.
+
+Definition crh_ok (c : cdesc) : bool :=
+  match cd_rh c with
+  | None => true
+  | Some r =>
+    match cd_elems c with
+    | e0 :: _ =>
+      (match ce_mult e0 with MOne => true | _ => false end) &&
+      no_counted (sd_schema (ce_desc e0)) &&
+      (match field_s (sd_schema (ce_desc e0)) (cr_field r) with
+       | Some (FInt w) => Nat.eqb w (cr_width r)
+       | _ => false
+       end) &&
+      negb (Nat.eqb (cr_field r) O) &&
+      forallb (fun a => pdisj [cr_field r] (rh_path a)) (sd_rh (ce_desc e0)) &&
+      (match nth_error (cd_elems c) (cr_elem r) with
+       | Some ek => match ce_mult ek with MOne => true | _ => false end
+       | None => false
+       end)
+    | [] => false
+    end
+  end.
+
+Definition cdesc_full_ok (c : cdesc) : bool :=
+  cdesc_ok c && forallb celem_ok (cd_elems c) && crh_ok c.
